@@ -397,6 +397,71 @@ static void builtin_array_checks()
     stats["elements-visited"] += 3 * static_cast<long>(N);
 }
 
+// built-in arrays of character type are arrays of N elements like any other (no terminator logic)
+template <typename Ch, std::size_t N>
+static void char_array_checks(const std::string& kind)
+{
+    Ch a[N];
+    for (std::size_t i = 0; i < N; ++i)
+        a[i] = static_cast<Ch>('a' + i);
+    {
+        std::size_t i = 0;
+        for (auto& x : reverse(a))
+        {
+            if (i >= N)
+            {
+                viol("reverse:" + kind + ":lvalue:visits-more-than-size", std::to_string(N));
+                break;
+            }
+            const Ch& r = x;
+            if (r != static_cast<Ch>('a' + (N - 1 - i)) || &r != &a[N - 1 - i])
+                viol("reverse:" + kind + ":lvalue:wrong-order-or-alias", std::to_string(i));
+            ++i;
+        }
+        if (i != N)
+            viol("reverse:" + kind + ":lvalue:visits-fewer-than-size", std::to_string(i) + " of " + std::to_string(N));
+    }
+    {
+        const Ch(&ca)[N] = a;
+        std::size_t i = 0;
+        for (auto& x : reverse(ca))
+        {
+            if (i >= N)
+                break;
+            const Ch& r = x;
+            if (r != static_cast<Ch>('a' + (N - 1 - i)) || &r != &a[N - 1 - i])
+                viol("reverse:" + kind + ":const:wrong-order-or-alias", std::to_string(i));
+            ++i;
+        }
+        if (i != N)
+            viol("reverse:" + kind + ":const:visits-fewer-than-size", std::to_string(i) + " of " + std::to_string(N));
+        i = 0;
+        for (auto&& e : enumerate(ca))
+        {
+            if (i >= N)
+                break;
+            if (e.index() != i || &e.value() != &a[i])
+                viol("enumerate:" + kind + ":const:wrong-index-or-alias", std::to_string(i));
+            ++i;
+        }
+        if (i != N)
+            viol("enumerate:" + kind + ":const:visits-fewer-than-size", std::to_string(i) + " of " + std::to_string(N));
+        i = 0;
+        for (auto&& e : enumerate(a))
+        {
+            if (i >= N)
+                break;
+            if (e.index() != i || &e.value() != &a[i])
+                viol("enumerate:" + kind + ":lvalue:wrong-index-or-alias", std::to_string(i));
+            ++i;
+        }
+        if (i != N)
+            viol("enumerate:" + kind + ":lvalue:visits-fewer-than-size", std::to_string(i) + " of " + std::to_string(N));
+    }
+    stats["combinations"] += 4;
+    stats["elements-visited"] += 4 * static_cast<long>(N);
+}
+
 template <typename L>
 static void check_ilist_enum(L&& adaptor, std::size_t n)
 {
@@ -676,6 +741,16 @@ int main(int argc, char** argv)
     });
     kind_case("std::array", [&] { std_array_all(std::make_index_sequence<6>{}); });
     kind_case("builtin-array", [&] { builtin_all(std::make_index_sequence<5>{}); });
+    kind_case("builtin-array-of-characters", [&] {
+        char_array_checks<char, 1>("builtin-array<char>");
+        char_array_checks<char, 3>("builtin-array<char>");
+        char_array_checks<char, 7>("builtin-array<char>");
+        char_array_checks<unsigned char, 2>("builtin-array<unsigned char>");
+        char_array_checks<signed char, 4>("builtin-array<signed char>");
+        char_array_checks<wchar_t, 3>("builtin-array<wchar_t>");
+        char_array_checks<long long, 3>("builtin-array<long long>");
+        char_array_checks<double, 2>("builtin-array<double>");
+    });
     kind_case("initializer-list", [&] { ilist_checks(); });
     kind_case("copy-deref-range", [&] { custom_range_checks(maxlen); });
     kind_case("manual-iteration", [&] {
